@@ -33,11 +33,22 @@ static void stiff(const double* in, double* out) {
   for (unsigned short i = 0; i != n; ++i)
     for (unsigned short j = 0; j != n; ++j) out[i * n + j] = C(i, j);
 }
+template <MH::Hypothesis mh, OAC c>
+static void stiffA(const double* in, double* out) {
+  constexpr auto N = ModellingHypothesisToSpaceDimension<mh>::value;
+  constexpr auto n = tfel::math::StensorDimeToSize<N>::value;
+  tfel::math::st2tost2<N, double> C;
+  computeOrthotropicStiffnessTensor<mh, StiffnessTensorAlterationCharacteristic::ALTERED, c>(
+      C, in[0], in[1], in[2], in[3], in[4], in[5], in[6], in[7], in[8]);
+  for (unsigned short i = 0; i != n; ++i)
+    for (unsigned short j = 0; j != n; ++j) out[i * n + j] = C(i, j);
+}
 #define VERIF_PAIR(H, C)                                                                                 \
   extern "C" void verif_sfe_##H##_##C(const double* in, double* out) { sfe<MH::H, OAC::C>(in, out); }    \
   extern "C" void verif_hill_##H##_##C(const double* in, double* out) { hill<MH::H, OAC::C>(in, out); }
 #define VERIF_STIFF(H, C) \
-  extern "C" void verif_stiff_##H##_##C(const double* in, double* out) { stiff<MH::H, OAC::C>(in, out); }
+  extern "C" void verif_stiff_##H##_##C(const double* in, double* out) { stiff<MH::H, OAC::C>(in, out); } \
+  extern "C" void verif_stiffA_##H##_##C(const double* in, double* out) { stiffA<MH::H, OAC::C>(in, out); }
 #define VERIF_ALLC(H) VERIF_PAIR(H, DEFAULT) VERIF_PAIR(H, PIPE) VERIF_STIFF(H, DEFAULT) VERIF_STIFF(H, PIPE)
 VERIF_ALLC(AXISYMMETRICALGENERALISEDPLANESTRAIN)
 VERIF_ALLC(AXISYMMETRICALGENERALISEDPLANESTRESS)
